@@ -995,9 +995,17 @@ func TestVerifC10ComposedTemplates(t *testing.T) {
 		names := []string{"ps-a", "ps-b", "ps-c"}
 		var pss []v1.PatchSet
 		defined := map[string][]v1.Patch{}
-		nested := false
+		nested, spareCap := false, false
 		for _, n := range rapid.SliceOfNDistinct(rapid.SampledFrom(names), 0, 3, rapid.ID[string]).Draw(t, "sets") {
 			ps := v1.PatchSet{Name: n, Patches: rapid.SliceOfN(c10Patch(), 0, 3).Draw(t, "pspatches")}
+			// Slices decoded from JSON (that is: every Composition read from the API server) usually have
+			// spare capacity; slice literals never do. Inlining must not depend on it.
+			if spare := rapid.IntRange(0, 3).Draw(t, "spare"); spare > 0 {
+				s := make([]v1.Patch, len(ps.Patches), len(ps.Patches)+spare)
+				copy(s, ps.Patches)
+				ps.Patches = s
+				spareCap = true
+			}
 			for _, p := range ps.Patches {
 				if p.Type == v1.PatchTypePatchSet {
 					nested = true
@@ -1006,16 +1014,27 @@ func TestVerifC10ComposedTemplates(t *testing.T) {
 			pss = append(pss, ps)
 			defined[n] = ps.Patches
 		}
+		// Every other case has all templates lead with the same patch set (the usual "common" patch set idiom).
+		lead := ""
+		if len(pss) > 0 && rapid.Bool().Draw(t, "sharedlead") {
+			lead = rapid.SampledFrom(pss).Draw(t, "lead").Name
+		}
 		var cts []v1.ComposedTemplate
 		wantErr := nested
 		var want [][]v1.Patch
 		for i := 0; i < rapid.IntRange(0, 3).Draw(t, "ntemplates"); i++ {
 			ct := v1.ComposedTemplate{Name: ptr.To(fmt.Sprintf("t%d", i))}
 			var exp []v1.Patch
-			for j := 0; j < rapid.IntRange(0, 4).Draw(t, "np"); j++ {
-				if rapid.Bool().Draw(t, "useps") {
+			np := rapid.IntRange(0, 4).Draw(t, "np")
+			if lead != "" && np < 2 {
+				np = 2
+			}
+			for j := 0; j < np; j++ {
+				if (lead != "" && j == 0) || rapid.Bool().Draw(t, "useps") {
 					p := v1.Patch{Type: v1.PatchTypePatchSet}
-					if rapid.IntRange(0, 5).Draw(t, "nonil") != 0 {
+					if lead != "" && j == 0 {
+						p.PatchSetName = ptr.To(lead)
+					} else if rapid.IntRange(0, 5).Draw(t, "nonil") != 0 {
 						p.PatchSetName = ptr.To(rapid.SampledFrom(append(names, "undefined")).Draw(t, "psn"))
 					}
 					ct.Patches = append(ct.Patches, p)
@@ -1038,12 +1057,15 @@ func TestVerifC10ComposedTemplates(t *testing.T) {
 			cts = append(cts, ct)
 			want = append(want, exp)
 		}
-		in := verifkit.JSON(cts)
+		in, inSets := verifkit.JSON(cts), verifkit.JSON(pss)
 		var got []v1.ComposedTemplate
 		var err error
 		c10NoPanic(t, "ComposedTemplates", func() { got, err = ComposedTemplates(pss, cts) })
 		if verifkit.JSON(cts) != in {
 			t.Fatalf("ComposedTemplates modified its input templates")
+		}
+		if verifkit.JSON(pss) != inSets {
+			t.Fatalf("ComposedTemplates modified its input patch sets")
 		}
 		if wantErr != (err != nil) {
 			t.Fatalf("ComposedTemplates: wantErr=%v err=%v", wantErr, err)
@@ -1056,6 +1078,12 @@ func TestVerifC10ComposedTemplates(t *testing.T) {
 				if verifkit.JSON(got[i].Patches) != verifkit.JSON(want[i]) && !(len(got[i].Patches) == 0 && len(want[i]) == 0) {
 					t.Fatalf("template %d: inlined patches differ:\ngot  %s\nwant %s", i, verifkit.JSON(got[i].Patches), verifkit.JSON(want[i]))
 				}
+			}
+			if spareCap {
+				rec.Label("patch-set-slice-with-spare-capacity")
+			}
+			if lead != "" && len(cts) > 1 {
+				rec.Label("templates-share-a-leading-patch-set")
 			}
 			if len(pss) > 0 && len(cts) > 0 {
 				rec.NonTrivial(verifkit.JSON([]any{pss, cts}), func() any { return map[string]any{"patchSets": pss, "templates": cts} })
